@@ -31,6 +31,139 @@ def run(chk):
     rule_float(chk)
     rule_payload(chk)
     rule_positions(chk)
+    rule_int_eval(chk)
+    rule_float_eval(chk)
+    import c09
+    c09.rule_lit_roundtrip(chk, prefix="C10.output")
+
+# ---- literal lexers read as functions of the spelling
+INT_DIGITS = {
+    "dec": ["0", "7", "9", "10", "42", "2147483647", "2147483648", "4294967295", "4294967296", "9223372036854775807", "9223372036854775808",
+            "18446744073709551615", "18446744073709551616", "99999999999999999999", "1234567890123456789012345", "100000000000000000000"],
+    "hex": ["0x0", "0x7", "0xf", "0xF", "0x10", "0xdeadBEEF", "0x7fffffff", "0x80000000", "0xFFFFFFFF", "0x100000000", "0x7FFFFFFFFFFFFFFF", "0x8000000000000000",
+            "0xFFFFFFFFFFFFFFFF", "0x10000000000000000", "0xabcdef0123456789a"],
+    "oct": ["00", "07", "010", "0777", "017777777777", "037777777777", "040000000000", "0777777777777777777777", "01777777777777777777777", "02000000000000000000000"],
+}
+INT_SUFFIX = {"": ("LiteralInt", 0, (1 << 64) - 1), "u": ("LiteralIntUnsigned32", 0, (1 << 32) - 1), "U": ("LiteralIntUnsigned32", 0, (1 << 32) - 1),
+              "l": ("LiteralIntSigned64", 0, (1 << 63) - 1), "L": ("LiteralIntSigned64", 0, (1 << 63) - 1),
+              "ul": ("LiteralIntUnsigned64", 0, (1 << 64) - 1), "UL": ("LiteralIntUnsigned64", 0, (1 << 64) - 1), "lu": ("LiteralIntUnsigned64", 0, (1 << 64) - 1),
+              "Lu": ("LiteralIntUnsigned64", 0, (1 << 64) - 1)}
+
+
+def _written_int(digits, radix):
+    if radix == "hex":
+        return int(digits[2:], 16)
+    if radix == "oct":
+        return int(digits[1:], 8) if len(digits) > 1 else 0
+    return int(digits)
+
+
+def rule_int_eval(chk):
+    """literal_int walked by the finite-map reader on integer spellings (three radices x boundary values up to 25 digits x
+    every suffix): the token carries exactly the written value with the suffix's kind, or the literal is refused when
+    the value does not fit 64 bits / the suffix's type. True when readable."""
+    import interp as I
+    f = chk.facts
+    li = f.fn("literal_int", "rssl_preprocess")
+    if not li:
+        return False
+    ip = I.Interp(f, max_depth=12, extern={})
+    ip.max_loop = 128
+    n = 0
+    for radix, spellings in INT_DIGITS.items():
+        bad = None
+        for d in spellings:
+            for suf, (kind, lo, hi) in INT_SUFFIX.items():
+                n += 1
+                text = d + suf
+                try:
+                    r = ip.apply(li, [list(text.encode())])
+                except I.Unknown as e:
+                    if "panicking" in str(e):
+                        bad = bad or "`%s` aborts the lexer (%s)" % (text, str(e)[:60])
+                        continue
+                    return False
+                v = _written_int(d, radix)
+                if isinstance(r, I.Enum) and r.variant == "Ok":
+                    rest, tok = r.fields["0"]
+                    if rest:
+                        bad = bad or "`%s`: only `%s` is consumed" % (text, text[:len(text) - len(rest)])
+                    elif not (lo <= v <= hi):
+                        bad = bad or "`%s` is accepted as %s although %d does not fit the type" % (text, tok, v)
+                    elif not (isinstance(tok, I.Enum) and tok.variant == kind and tok.fields.get("0") == v):
+                        bad = bad or "`%s` is lexed as %s, it denotes %s(%d)" % (text, tok, kind, v)
+                elif isinstance(r, I.Enum) and r.variant == "Err":
+                    if lo <= v <= hi:
+                        bad = bad or "`%s` (= %d, fits) is refused" % (text, v)
+                else:
+                    return False
+        chk.ob("C10.lit/int/" + radix, bad is None, "%d spellings x %d suffixes: exact value with the suffix's kind, or refused when it does not fit" % (len(spellings), len(INT_SUFFIX))
+               if bad is None else bad, where(li), sample={"radix": radix, "spellings": len(spellings) * len(INT_SUFFIX)})
+    chk.floor("C10.floor/int-spellings", n, 300, "integer spellings read", where(li))
+    return True
+
+
+FLOAT_MANTISSAS = ["0.0031308", "0.055", "0.1", "0.3", "0.7", "1.1", "2.7", "1.", ".5", "3.14159265358979", "2.718281828459045", "0.30102999566398120", "123456789.125",
+                   "9007199254740993.", "0.000001", "6.02214076", "1.7976931348623157", "4.9406564584124654", "2.2250738585072014", "8.98846567431158", "0.12345678901234567890",
+                   "65504.", "16777217.", "0.333333343267440796", "100.", "7.", "5.5"]
+FLOAT_EXPONENTS = [None, "e0", "e1", "e-1", "e5", "E-7", "e+11", "e22", "e23", "e25", "e-25", "e38", "e-45", "e100", "e-100", "e300", "e308", "e-308", "e-324", "e310", "e-330"]
+FLOAT_SUFFIX = {"": ("LiteralFloat", False), "f": ("LiteralFloat32", True), "F": ("LiteralFloat32", True), "h": ("LiteralFloat16", True), "H": ("LiteralFloat16", True),
+                "l": ("LiteralFloat64", False), "L": ("LiteralFloat64", False)}
+
+
+def rule_float_eval(chk):
+    """literal_float walked by the finite-map reader (IEEE double arithmetic is the same in the reader as in rustc's
+    target) on decimal spellings: the token is the double nearest to the decimal text, narrowed once to single
+    precision for f / h. True when readable."""
+    import interp as I
+    import struct
+    import math
+    f = chk.facts
+    lf = f.fn("literal_float", "rssl_preprocess")
+    if not lf:
+        return False
+    ip = I.Interp(f, max_depth=12, extern={})
+    ip.max_loop = 1024
+    n = 0
+    bad = {}
+    for m in FLOAT_MANTISSAS:
+        for ex in FLOAT_EXPONENTS:
+            for suf, (kind, narrow) in FLOAT_SUFFIX.items():
+                if ex is None and suf and m in ("7.",):
+                    pass
+                text = m + (ex or "") + suf
+                n += 1
+                try:
+                    r = ip.apply(lf, [list(text.encode())])
+                except I.Unknown as e:
+                    if "panicking" in str(e):
+                        bad.setdefault("abort", "`%s` aborts the lexer (%s)" % (text, str(e)[:60]))
+                        continue
+                    return False
+                if not (isinstance(r, I.Enum) and r.variant == "Ok"):
+                    bad.setdefault("refused", "`%s` is refused" % text)
+                    continue
+                rest, tok = r.fields["0"]
+                want = float(m + (ex or ""))
+                if narrow:
+                    try:
+                        want = struct.unpack("f", struct.pack("f", want))[0]
+                    except OverflowError:
+                        want = math.copysign(float("inf"), want)
+                got = tok.fields.get("0") if isinstance(tok, I.Enum) else None
+                got = getattr(got, "v", got)
+                if rest or not isinstance(tok, I.Enum) or tok.variant != kind:
+                    bad.setdefault("kind", "`%s` is lexed as %s (rest %r), it is a %s" % (text, tok, bytes(rest), kind))
+                elif not (isinstance(got, float) and (got == want or (got != got and want != want))):
+                    key = "nearest" if not narrow else "narrowed"
+                    bad.setdefault(key, "`%s` is lexed as %r, the %s is %r" % (text, got, "nearest double" if not narrow else "nearest double narrowed once to single precision", want))
+    for key, txt in (("nearest", "the token is the double nearest to the decimal text"), ("narrowed", "f / h literals are that double narrowed once to single precision"),
+                     ("kind", "the suffix selects the token kind and the whole spelling is consumed"), ("refused", "no spelling of the table is refused"),
+                     ("abort", "no spelling aborts the lexer")):
+        chk.ob("C10.lit/float/" + key, key not in bad, "%d spellings: %s" % (n, txt) if key not in bad else bad[key], where(lf), sample={"spellings": n})
+    chk.floor("C10.floor/float-spellings", n, 3000, "float spellings read", where(lf))
+    return True
+
 
 
 def rule_positions(chk):
@@ -293,7 +426,12 @@ def rule_float(chk):
             chk.ob("C10.exp/bounded-loop", has_exit, "exponent loop exits once the value saturated" if has_exit else
                    "a loop runs |exponent| times with no saturation exit: an exponent like 1e999999999999 makes lexing take time "
                    "unrelated to the input size", where(cf, node))
-        chk.floor("C10.floor/exponent-loops", n, 2, "loops bounded by the exponent", where(cf))
+        ranged = [1 for (p_, it_, b_, n_) in loops if (F.adt_ctor(F.strip(it_)) or (None,))[0] == "Range"]
+        uses_exponent = any(x.get("k") == "Var" and x.get("name") == "exponent" for x in F.walk(cf["thir"]))
+        if ranged:
+            chk.floor("C10.floor/exponent-loops", n, 2, "loops bounded by the exponent", where(cf))
+        else:
+            chk.ob("C10.exp/bounded-loop", True, "calculate_float64_from_parts has no loop (the exponent is not iterated over)", where(cf), trivial=True)
     lf = chk.anchor("C10.anchor/literal_float", f.fn("literal_float", PP), "literal_float")
     if lf:
         tab = {}
